@@ -1,11 +1,12 @@
-import Plotink.Proofs.Ebb3GenHelpers
+import Plotink.Proofs.Ebb3GenConnect
 import Plotink.Proofs.C05Script
 import Plotink.Proofs.C05FailRep
 
 /-! # The regenerated methods as one `genRun`, the set `S` of bridged methods, the master bridge, histories
 
 `genRun fuel c w` calls the regenerated method of the call `c` with its arguments encoded as Python values.
-`InS c` = the method of `c` is bridged (the set **S**); `gen_bridge` is the union of the per-method bridges;
+`InS c` = the method of `c` is bridged (the set **S**, now all 38 public methods); `gen_bridge` is the union of the
+per-method bridges;
 `gen_final_sim` / `gen_calls_sim` carry it along histories. -/
 
 namespace Plotink
@@ -14,8 +15,7 @@ open PyObj Gen
 set_option linter.unusedSimpArgs false
 set_option linter.unusedVariables false
 
-/-- the regenerated method of a call (methods outside `S` run too — they are simply not covered by `gen_bridge`;
-`connect` / `find_first` take their environment from `w.ext`) -/
+/-- the regenerated method of a call (`connect` / `find_first` take their environment from `w.ext`) -/
 def genRun (fuel : Nat) : Ebb3.Call → World EBB3_Obj → Out EBB3_Obj
   | .command req => EBB3_command fuel (encReq req)
   | .query req => EBB3_query fuel (encReq req)
@@ -40,7 +40,6 @@ def genRun (fuel : Nat) : Ebb3.Call → World EBB3_Obj → Out EBB3_Obj
   | .pen_rate_down v => EBBMotionWrap_pen_rate_down fuel (.int v)
   | .pen_rate_up v => EBBMotionWrap_pen_rate_up fuel (.int v)
   | .servo_timeout m s => EBBMotionWrap_servo_timeout fuel (.int m) (encOptInt s)
-  -- not (yet) bridged
   | .find_first _ => EBB3_find_first fuel
   | .parse_version s => EBB3_parse_version fuel (.str s)
   | .query_nickname => EBB3_query_nickname fuel
@@ -59,14 +58,7 @@ def genRun (fuel : Nat) : Ebb3.Call → World EBB3_Obj → Out EBB3_Obj
 
 /-- **the set S** of methods whose regenerated code is bridged to the model -/
 def inS : Ebb3.Method → Bool
-  | .command | .query | .query_statusbyte | .record_error | .disconnect | .reboot | .bootload
-  | .var_write | .var_read | .timed_pause | .xy_move | .abs_move | .motors_disable | .clear_steps
-  | .clear_accumulators | .pen_lower | .pen_raise | .dio_b_set | .pen_pos_down | .pen_pos_up
-  | .pen_rate_down | .pen_rate_up | .servo_timeout
-  | .dio_b_config | .dio_b_read | .query_nickname | .write_nickname | .query_current | .query_voltage
-  | .query_steps | .motors_query_enabled | .var_write_int32 | .var_read_int32 | .motors_enable
-  | .parse_version | .min_version => true
-  | _ => false
+  | _ => true
 
 /-- request texts are ASCII (the regenerated `encode('ascii')` raises `UnicodeEncodeError` otherwise; outside the
 alphabet of the properties) -/
@@ -81,13 +73,51 @@ def fuelNeed : Ebb3.Call → Nat
   | .timed_pause t => max 26 (t.toNat + 1)
   | _ => 26
 
-/-- per-call side condition: `reboot` / `bootload` on an unblocked object need the next write fault (if any) to be
-of a class their handler names -/
+/-- per-call side condition of the bridge, on the world the call starts in: `reboot` / `bootload` on an unblocked
+object need the next write fault (if any) to be of a class their handler names; `find_first` / `connect` take the
+model's environment arguments from `w.ext` (`PortIn`: the port-search result is C19's `findFirst` of the `comports()`
+input, or what `find_named` returns; the open outcome is `ext.openOk`), and `connect` lets a fault of its last
+exchange escape, so the fault classes of the scripts must be the model's `SerialException` -/
 def Pre (c : Ebb3.Call) (w : World EBB3_Obj) : Prop :=
   match c with
   | .reboot => (absSt w.obj).blocked = false → RebootOk w
   | .bootload => (absSt w.obj).blocked = false → RebootOk w
+  | .find_first f => PortIn Option.none f w.ext
+  | .connect g _ f o => PortIn g f w.ext ∧ o = w.ext.openOk ∧ SerialOnly w
   | _ => True
+
+/-- no write fault of the script is of a class outside the handler of `reboot` / `bootload` -/
+def RebootW (w : World EBB3_Obj) : Prop :=
+  ∀ c, PyIO.Wr.raise c ∈ w.port.writes → PyIO.catches rebootClasses c = true
+
+/-- the *static* form of `Pre`: a condition on the inputs (scripts, `ext`) that no regenerated method can break
+(`Env.fr`), so it is imposed once, on the world a history starts in -/
+def Env (c : Ebb3.Call) (w : World EBB3_Obj) : Prop :=
+  match c with
+  | .reboot => RebootW w
+  | .bootload => RebootW w
+  | .find_first f => PortIn Option.none f w.ext
+  | .connect g _ f o => PortIn g f w.ext ∧ o = w.ext.openOk ∧ SerialOnly w
+  | _ => True
+
+theorem RebootW.ok {w : World EBB3_Obj} (h : RebootW w) : RebootOk w :=
+  fun c ws hw => h c (by rw [hw]; exact List.mem_cons_self)
+
+theorem Env.pre {c : Ebb3.Call} {w : World EBB3_Obj} (h : Env c w) : Pre c w := by
+  cases c <;> first | exact h | exact fun _ => RebootW.ok h
+
+theorem Env.fr {c : Ebb3.Call} {w w' : World EBB3_Obj} (h : Env c w) (hf : Fr w w') : Env c w' := by
+  cases c <;> try exact h
+  case reboot => exact fun c hc => h c (hf.2.2 _ hc)
+  case bootload => exact fun c hc => h c (hf.2.2 _ hc)
+  case find_first f =>
+    show PortIn Option.none f w'.ext
+    rw [hf.1]; exact h
+  case connect g cl f o =>
+    obtain ⟨h1, h2, h3⟩ := h
+    show PortIn g f w'.ext ∧ o = w'.ext.openOk ∧ SerialOnly w'
+    rw [hf.1]
+    exact ⟨h1, h2, h3.fr hf⟩
 
 /-- everything a call needs to be covered by the bridge -/
 structure Covered (fuel : Nat) (c : Ebb3.Call) : Prop where
@@ -95,12 +125,17 @@ structure Covered (fuel : Nat) (c : Ebb3.Call) : Prop where
   ascii : ArgsAscii c
   fuel : fuelNeed c ≤ fuel
 
-/-- **master bridge**: for every call of a method in S -/
+/-- **master bridge**: for every call of every public method -/
 theorem gen_bridge (fuel : Nat) (c : Ebb3.Call) (hc : Covered fuel c) (w : World EBB3_Obj) (hg : Good w) (hp : Pre c w) :
     Sim (genRun fuel c w) (Ebb3.run Ebb3.srcParams Ebb3.scriptDev c (absWorld w)) := by
   obtain ⟨hs, ha, hf⟩ := hc
   cases c <;> simp only [Ebb3.Call.method, inS, Bool.false_eq_true] at hs <;> simp only [fuelNeed] at hf <;>
     simp only [genRun]
+  case find_first f => exact find_first_bridge' fuel f w hg hp
+  case connect g cl f o =>
+    obtain ⟨hin, ho, hso⟩ := hp
+    subst ho
+    exact connect_bridge fuel hf g cl f w hg hin hso
   case reboot => exact reboot_bridge fuel w hg hp
   case bootload => exact bootload_bridge fuel w hg hp
   case record_error m => exact record_error_bridge fuel m w hg
@@ -189,13 +224,67 @@ def HistPre (fuel : Nat) : List Ebb3.Call → World EBB3_Obj → Prop
   | [], _ => True
   | c :: cs, w => Pre c w ∧ ∀ w', outWorld (genRun fuel c w) = some w' → HistPre fuel cs w'
 
-theorem histPre_of_no_reboot (fuel : Nat) : ∀ (cs : List Ebb3.Call) (w : World EBB3_Obj),
-    (∀ c ∈ cs, c.method ≠ .reboot ∧ c.method ≠ .bootload) → HistPre fuel cs w
+/-- every regenerated method has the frame property -/
+theorem genRun_fr (fuel : Nat) (c : Ebb3.Call) (w : World EBB3_Obj) : FrO w (genRun fuel c w) := by
+  cases c <;> simp only [genRun]
+  case command req => exact fr_EBB3_command fuel _ w
+  case query req => exact fr_EBB3_query fuel _ w
+  case query_statusbyte => exact fr_EBB3_query_statusbyte fuel w
+  case record_error m => exact fr_EBB3_record_error fuel _ w
+  case disconnect => exact fr_EBB3_disconnect fuel w
+  case reboot => exact fr_EBB3_reboot fuel w
+  case bootload => exact fr_EBB3_bootload fuel w
+  case var_write v i => exact fr_EBB3_var_write fuel _ _ w
+  case var_read i => exact fr_EBB3_var_read fuel _ w
+  case timed_pause t => exact fr_EBBMotionWrap_timed_pause fuel _ w
+  case xy_move dx dy dur => exact fr_EBBMotionWrap_xy_move fuel _ _ _ w
+  case abs_move r a b => exact fr_EBBMotionWrap_abs_move fuel _ _ _ w
+  case motors_disable => exact fr_EBBMotionWrap_motors_disable fuel w
+  case clear_steps => exact fr_EBBMotionWrap_clear_steps fuel w
+  case clear_accumulators => exact fr_EBBMotionWrap_clear_accumulators fuel w
+  case pen_lower d p => exact fr_EBBMotionWrap_pen_lower fuel _ _ w
+  case pen_raise d p => exact fr_EBBMotionWrap_pen_raise fuel _ _ w
+  case dio_b_set p s => exact fr_EBBMotionWrap_dio_b_set fuel _ _ w
+  case pen_pos_down v => exact fr_EBBMotionWrap_pen_pos_down fuel _ w
+  case pen_pos_up v => exact fr_EBBMotionWrap_pen_pos_up fuel _ w
+  case pen_rate_down v => exact fr_EBBMotionWrap_pen_rate_down fuel _ w
+  case pen_rate_up v => exact fr_EBBMotionWrap_pen_rate_up fuel _ w
+  case servo_timeout m s => exact fr_EBBMotionWrap_servo_timeout fuel _ _ w
+  case find_first f => exact fr_EBB3_find_first fuel w
+  case parse_version s => exact fr_EBB3_parse_version fuel _ w
+  case query_nickname => exact fr_EBB3_query_nickname fuel w
+  case write_nickname n => exact fr_EBB3_write_nickname fuel _ w
+  case connect g cl f o => exact fr_EBB3_connect fuel _ _ w
+  case min_version v => exact fr_EBB3_min_version fuel _ w
+  case var_write_int32 v i => exact fr_EBB3_var_write_int32 fuel _ _ w
+  case var_read_int32 i => exact fr_EBB3_var_read_int32 fuel _ w
+  case motors_enable a b => exact fr_EBBMotionWrap_motors_enable fuel _ _ w
+  case motors_query_enabled => exact fr_EBBMotionWrap_motors_query_enabled fuel w
+  case query_steps => exact fr_EBBMotionWrap_query_steps fuel w
+  case dio_b_config p s d => exact fr_EBBMotionWrap_dio_b_config fuel _ _ _ w
+  case dio_b_read p => exact fr_EBBMotionWrap_dio_b_read fuel _ w
+  case query_voltage t => exact fr_EBBMotionWrap_query_voltage fuel _ w
+  case query_current => exact fr_EBBMotionWrap_query_current fuel w
+
+theorem fr_of_outWorld {w w' : World EBB3_Obj} {out : Out EBB3_Obj} (h : FrO w out) (hw : outWorld out = some w') :
+    Fr w w' := by
+  cases out with
+  | fuelOut => cases hw
+  | val v w1 => injection hw with hw; rw [← hw]; exact h
+  | exc c w1 => injection hw with hw; rw [← hw]; exact h
+
+/-- **the side conditions along a history follow from the static ones on its first world**: the regenerated methods
+leave `ext` alone and only consume the scripts (`genRun_fr`) -/
+theorem histPre_of_env (fuel : Nat) : ∀ (cs : List Ebb3.Call) (w : World EBB3_Obj),
+    (∀ c ∈ cs, Env c w) → HistPre fuel cs w
   | [], _, _ => trivial
   | c :: cs, w, h => by
-    refine ⟨?_, fun w' _ => histPre_of_no_reboot fuel cs w' (fun c' hc' => h c' (List.mem_cons_of_mem _ hc'))⟩
-    have := h c List.mem_cons_self
-    cases c <;> simp_all [Pre, Ebb3.Call.method]
+    refine ⟨(h c List.mem_cons_self).pre, fun w' hw' => histPre_of_env fuel cs w' (fun c' hc' => ?_)⟩
+    exact (h c' (List.mem_cons_of_mem _ hc')).fr (fr_of_outWorld (genRun_fr fuel c w) hw')
+
+theorem env_of_plain {c : Ebb3.Call} (w : World EBB3_Obj)
+    (h : c.method ≠ .reboot ∧ c.method ≠ .bootload ∧ c.method ≠ .find_first ∧ c.method ≠ .connect) : Env c w := by
+  cases c <;> simp_all [Env, Ebb3.Call.method]
 
 /-- the final world of a history over S is the model's final world -/
 theorem gen_final_sim (fuel : Nat) : ∀ (cs : List Ebb3.Call) (w : World EBB3_Obj),
